@@ -42,32 +42,56 @@ class Monitor:
 
     # -- K: compile / exec called from kingdon frames -----------------------------------
     def install_builtins(self):
+        """K events: compile / exec / eval called *directly* from a kingdon frame.  (Counting calls that are
+        merely reached through kingdon was tried and withdrawn: sympy.simplify, which kingdon applies to the
+        coefficients of every symbolic result, evaluates strings internally, so warm symbolic calls raised
+        false alarms.)"""
         mon_self = self
         kdir = self.kdir
-        oc, oe = self._orig_compile, self._orig_exec
+        oc, oe, ov = self._orig_compile, self._orig_exec, builtins.eval
+        self._orig_eval = ov
+        from .engine import HARNESS_DIR
+
+        def from_kingdon(f):
+            return f is not None and f.f_code.co_filename.startswith(kdir)
+
+        def note():
+            mon_self.K += 1
+            mon_self.total['K'] += 1
 
         def compile(*a, **k):
-            if mon_self.active and sys._getframe(1).f_code.co_filename.startswith(kdir):
-                mon_self.K += 1
-                mon_self.total['K'] += 1
+            if mon_self.active and from_kingdon(sys._getframe(1)):
+                note()
             return oc(*a, **k)
 
         def exec(source, globals=None, locals=None, **k):
             f = sys._getframe(1)
-            if mon_self.active and f.f_code.co_filename.startswith(kdir):
-                mon_self.K += 1
-                mon_self.total['K'] += 1
+            if mon_self.active and from_kingdon(f):
+                note()
             if globals is None:
                 globals = f.f_globals
                 if locals is None:
                     locals = f.f_locals
             return oe(source, globals, locals, **k)
+
+        def eval(source, globals=None, locals=None):
+            f = sys._getframe(1)
+            if mon_self.active and isinstance(source, str) and from_kingdon(f):
+                note()
+            if globals is None:
+                globals = f.f_globals
+                if locals is None:
+                    locals = f.f_locals
+            return ov(source, globals, locals)
         builtins.compile = compile
         builtins.exec = exec
+        builtins.eval = eval
 
     def uninstall_builtins(self):
         builtins.compile = self._orig_compile
         builtins.exec = self._orig_exec
+        if hasattr(self, '_orig_eval'):
+            builtins.eval = self._orig_eval
 
     # -- G: entry into codegen callables -------------------------------------------------
     def watch_registry(self, world):
